@@ -161,6 +161,23 @@ class CountingFile:
         self._pos += len(data)
         return data
 
+    def readinto(self, b):
+        # the same fault script applies to every way of reading from the object (a reader that used readinto and ignored
+        # the returned count would otherwise escape the fault injection)
+        mv = memoryview(b).cast('B')
+        data = self.read(len(mv))
+        mv[:len(data)] = data
+        return len(data)
+
+    def tell(self):
+        return self._pos
+
+    def readable(self):
+        return True
+
+    def seekable(self):
+        return True
+
     def close(self):
         self._f.close()
 
